@@ -36,4 +36,4 @@ def run(ctx, rep):
     builtins.rule_integral_double_printing(ctx, rep, "C17-R17")
     builtins.rule_array_elements_to_text(ctx, rep, "C17-R18")
     textparse.rule_backward_search_start(ctx, rep, "C17-R19")
-    optargs.rule_integer_argument_consulted(ctx, rep, "C17-R20", lambda f: _in_family(f.qual), "the Array and typed-array methods", floor=5)
+    optargs.rule_integer_argument_consulted(ctx, rep, "C17-R20", lambda f: _in_family(f.qual), "the Array and typed-array methods", floor=3)
